@@ -1,20 +1,686 @@
 //! C17 — access-guarding file directives (`!> allow-ips`, `!> hide`, `*.private`) in the
-//! request pipeline: the scenario harness of c00pipe.rs (real `kvarn::handle_cache`, chosen
-//! client address per request, fixture files in a fresh directory) on a host whose extensions
-//! are `Extensions::empty()` (or `Extensions::new()` when cfg `default_ext` is set) + `kvarn_extensions::mount_all`.
+//! request pipeline, on a host whose extensions are `Extensions::empty()` (or `Extensions::new()` when
+//! cfg `default_ext` is set) + `kvarn_extensions::mount_all`; fixture files (also outside `public/`:
+//! `errors/<code>.html`, `templates/...`) in a fresh directory.
 //!
-//! component `guards.run`: scenario as in c00pipe.rs; cfg keys used: files, cache, fcache, vary, report.
-use crate::c00pipe;
+//! component `guards.run` (in process, the real `kvarn::handle_cache`):
+//!   scenario = (L cfg ops), cfg as in c00pipe::build_host (keys used: files, cache, fcache, vary, report,
+//!              default_ext, disable_ims)
+//!   op       = (L (N 0) addr method target headers body) | (L (N 1) target) | (L (N 2)) | (L (N 3) ms)
+//!   addr     = (N n)            n < 65536: 10.0.(n/256).(n%256)        (as c00pipe::sockaddr)
+//!            | (L (N 4) (N v))  the IPv4 address with the 32-bit value v
+//!            | (L (N 6) (N v))  the IPv6 address with the 128-bit value v
+//!   result   = per request (L status headers body decode_ok identity log) as c00pipe, but a hard-coded error
+//!              page of status s (recognised with `kvarn_utils::hardcoded_error_body` itself, whatever the
+//!              message) is written `ERRPAGE:<s>`.
+//!
+//! component `guards.wire` (every request over its own loopback HTTP/1.1 connection served by
+//!   `kvarn::handle_connection` with the chosen peer address, so that what is judged is what `SendKind::send`
+//!   wrote: Range slicing, the HEAD rule, Package extensions, content-length):
+//!   op       = (L (N 0) addr method target headers allow twin) | (L (N 1) target) | (L (N 2)) | (L (N 3) ms)
+//!              allow = name of the fixture file whose SECRET marker this reply may carry ("" = none)
+//!              twin  = 0 | 1 + index of an earlier request op whose answer this one must equal byte for byte
+//!                      (status, every header but `date`, the value of `last-modified` excepted, body)
+//!   result   = (L violation ...), violation = (L (N op index) (B what)); (L) = the specification holds
+//!   harness trouble (connect failure, time-out, unparsable answer) = (L (N 93) (B why))
+//! component `guards.wire_obs`: the same history, result = per request (L status (L (L name value) ...) body)
+use crate::c00pipe as pipe;
 use crate::xval::X;
+use bytes::Bytes;
+use kvarn::prelude::*;
+use std::sync::Arc;
+use std::time::Duration;
+use tokio::io::{AsyncReadExt, AsyncWriteExt};
+
+const WAIT: Duration = Duration::from_secs(20);
+
+fn customize() -> Box<pipe::Customize> {
+    Box::new(|kv, host, _shared| {
+        kvarn_extensions::mount_all(&mut host.extensions);
+        // cfg `fcache_seed` = (L (L (B path relative to the host directory) (L) | (L (B content))) ...): entries the file cache
+        // holds before the first request (stale content, or "no such file"), under the key the server itself uses for the path
+        if let (Some(seed), Some(cache)) = (kv.iter().find(|(n, _)| n == "fcache_seed").and_then(|(_, v)| v.as_l()), host.file_cache.as_ref()) {
+            for e in seed {
+                if let Some([X::B(rel), X::L(v)]) = e.as_l() {
+                    let key = format!("{}/{}", host.path, String::from_utf8_lossy(rel));
+                    let value = match &v[..] {
+                        [X::B(content)] => Some((kvarn::prelude::chrono::OffsetDateTime::now_utc(), Bytes::copy_from_slice(content))),
+                        _ => None,
+                    };
+                    cache.cache.insert(key.into(), value);
+                }
+            }
+        }
+    })
+}
+
+/// the client address of an operation
+fn address(x: &X, port: u16) -> Option<SocketAddr> {
+    match x {
+        X::N(n) if *n < 65536 => Some(SocketAddr::new(pipe::sockaddr(*n).ip(), port)),
+        X::N(_) => None,
+        X::L(l) => match &l[..] {
+            [X::N(4), X::N(v)] if *v < (1u128 << 32) => Some(SocketAddr::new(IpAddr::V4(net::Ipv4Addr::from(*v as u32)), port)),
+            [X::N(6), X::N(v)] => Some(SocketAddr::new(IpAddr::V6(net::Ipv6Addr::from(*v)), port)),
+            _ => None,
+        },
+        X::B(_) => None,
+    }
+}
+
+const CODES: [u16; 12] = [400, 401, 403, 404, 405, 406, 409, 410, 416, 429, 500, 503];
+
+/// `ERRPAGE:<code>` for kvarn's hard-coded error page of any of the usual codes (with or without a message)
+pub fn canon_error(b: &[u8]) -> Vec<u8> {
+    if !b.starts_with(b"<!DOCTYPE html>") {
+        return b.to_vec();
+    }
+    for code in CODES {
+        let code = match StatusCode::from_u16(code) {
+            Ok(c) => c,
+            Err(_) => continue,
+        };
+        if b == &kvarn_utils::hardcoded_error_body(code, None)[..] {
+            return format!("ERRPAGE:{}", code.as_u16()).into_bytes();
+        }
+        // with a message: everything before and after the message is that of the page
+        let with = kvarn_utils::hardcoded_error_body(code, Some(b"\x01\x02\x01"));
+        if let Some(p) = with.windows(3).position(|w| w == b"\x01\x02\x01") {
+            let (pre, post) = (&with[..p], &with[p + 3..]);
+            if b.len() >= pre.len() + post.len() && b.starts_with(pre) && b.ends_with(post) {
+                return format!("ERRPAGE:{}", code.as_u16()).into_bytes();
+            }
+        }
+    }
+    b.to_vec()
+}
+
+async fn run_ops(b: &pipe::Built, ops: &[X]) -> Option<Vec<X>> {
+    let host = b.hosts.get_host(&b.host_name)?;
+    let mut out = Vec::new();
+    let now = || std::time::SystemTime::now().duration_since(std::time::UNIX_EPOCH).unwrap();
+    if let Some(phase) = b.align {
+        let frac = now().subsec_millis() as u64;
+        tokio::time::sleep(Duration::from_millis((phase + 1000 - frac) % 1000)).await;
+    }
+    let t0 = now().as_secs();
+    for op in ops {
+        let l = op.as_l()?;
+        match l.first()?.as_n()? {
+            0 => {
+                if l.len() != 6 {
+                    return None;
+                }
+                let addr = match address(&l[1], 4000) {
+                    Some(a) => a,
+                    None => {
+                        out.push(X::L(vec![X::N(96)]));
+                        continue;
+                    }
+                };
+                let hdrs: Vec<X> = l[4]
+                    .as_l()?
+                    .iter()
+                    .map(|h| match h.as_l() {
+                        Some([n, v]) if n.as_b() == Some(b"if-modified-since") => {
+                            X::L(vec![n.clone(), X::b(pipe::subst_ims(v.as_b().unwrap_or(b""), t0))])
+                        }
+                        _ => h.clone(),
+                    })
+                    .collect();
+                let mut req = match pipe::make_request(&b.host_name, l[2].as_b()?, l[3].as_b()?, &hdrs, l[5].as_b()?) {
+                    Some(r) => r,
+                    None => {
+                        out.push(X::L(vec![X::N(96)]));
+                        continue;
+                    }
+                };
+                b.shared.log.lock().unwrap().clear();
+                let reply = kvarn::handle_cache(&mut req, addr, host).await;
+                let log: Vec<X> = b.shared.log.lock().unwrap().iter().map(X::b).collect();
+                let enc = reply.response.headers().get("content-encoding").map(|v| v.as_bytes().to_vec());
+                let (decoded, ok) = pipe::decode_body(enc.as_deref(), reply.response.body());
+                out.push(X::L(vec![
+                    X::n(reply.response.status().as_u16()),
+                    pipe::report_headers(reply.response.headers(), &b.report),
+                    X::b(canon_error(&decoded)),
+                    X::bool(ok),
+                    X::b(canon_error(&reply.identity_body)),
+                    X::L(log),
+                ]));
+            }
+            1 => {
+                let uri = Uri::try_from(l.get(1)?.as_b()?).ok()?;
+                let (found, cleared) = b.hosts.clear_page(&b.host_name, &uri);
+                out.push(X::L(vec![X::bool(found), X::bool(cleared)]));
+            }
+            2 => {
+                b.hosts.clear_response_caches(None).await;
+                out.push(X::L(vec![]));
+            }
+            3 => {
+                tokio::time::sleep(Duration::from_millis(l.get(1)?.as_n()? as u64)).await;
+                out.push(X::L(vec![]));
+            }
+            _ => return None,
+        }
+    }
+    Some(out)
+}
+
+/// a crashed earlier process with this process' id may have left fixture directories `.run/<pid>-<n>` behind; `build_host` would
+/// write the next fixture INTO such a directory (stale files, e.g. an errors/404.html, would join it): remove them once
+fn clean_stale_dirs() {
+    static ONCE: std::sync::Once = std::sync::Once::new();
+    ONCE.call_once(|| {
+        let run = format!("{}/.run", env!("CARGO_MANIFEST_DIR").trim_end_matches("/harness"));
+        let prefix = format!("{}-", std::process::id());
+        if let Ok(rd) = std::fs::read_dir(&run) {
+            for e in rd.flatten() {
+                if e.file_name().to_string_lossy().starts_with(&prefix) {
+                    let _ = std::fs::remove_dir_all(e.path());
+                }
+            }
+        }
+    });
+}
+
+fn run(x: &X) -> X {
+    clean_stale_dirs();
+    let l = match x.as_l() {
+        Some(l) if l.len() == 2 => l,
+        _ => return X::bad(),
+    };
+    let c = customize();
+    let built = match pipe::build_host(&l[0], Some(&*c)) {
+        Some(b) => b,
+        None => return X::bad(),
+    };
+    let ops = match l[1].as_l() {
+        Some(o) => o,
+        None => return X::bad(),
+    };
+    let res = pipe::block_on(run_ops(&built, ops));
+    if let Some(d) = &built.dir {
+        let _ = std::fs::remove_dir_all(d);
+    }
+    match res {
+        Some(v) => X::L(v),
+        None => X::bad(),
+    }
+}
+
+// ------------------------------------------------------------------------------------------------
+// on the wire
+// ------------------------------------------------------------------------------------------------
+struct Answer {
+    status: u16,
+    headers: Vec<(Vec<u8>, Vec<u8>)>,
+    body: Vec<u8>,
+}
+
+/// (framing as in c05wire.rs)
+async fn read_answer(stream: &mut tokio::net::TcpStream, is_head: bool) -> Result<Answer, &'static str> {
+    let mut buf: Vec<u8> = Vec::new();
+    async fn more(stream: &mut tokio::net::TcpStream, buf: &mut Vec<u8>) -> Result<(), &'static str> {
+        let mut tmp = [0u8; 16384];
+        match tokio::time::timeout(WAIT, stream.read(&mut tmp)).await {
+            Ok(Ok(0)) => Err("connection closed by the server"),
+            Ok(Ok(n)) => {
+                buf.extend_from_slice(&tmp[..n]);
+                Ok(())
+            }
+            Ok(Err(_)) => Err("read error"),
+            Err(_) => Err("time-out waiting for the answer"),
+        }
+    }
+    let head_end = loop {
+        if let Some(p) = buf.windows(4).position(|w| w == b"\r\n\r\n") {
+            break p + 4;
+        }
+        more(stream, &mut buf).await?;
+    };
+    let head = buf[..head_end - 4].to_vec();
+    let mut lines = head.split(|c| *c == b'\n').map(|l| l.strip_suffix(b"\r").unwrap_or(l));
+    let first = lines.next().ok_or("empty head")?;
+    let mut parts = first.splitn(3, |c| *c == b' ');
+    let version = parts.next().ok_or("no version")?;
+    if !version.starts_with(b"HTTP/1.") {
+        return Err("not an HTTP/1 status line");
+    }
+    let status: u16 = std::str::from_utf8(parts.next().ok_or("no status")?).ok().and_then(|s| s.parse().ok()).ok_or("bad status")?;
+    let mut headers = Vec::new();
+    for l in lines {
+        let colon = l.iter().position(|c| *c == b':').ok_or("header line without colon")?;
+        let name = l[..colon].to_ascii_lowercase();
+        let mut v = &l[colon + 1..];
+        while let [b' ' | b'\t', rest @ ..] = v {
+            v = rest;
+        }
+        while let [rest @ .., b' ' | b'\t'] = v {
+            v = rest;
+        }
+        headers.push((name, v.to_vec()));
+    }
+    let bodyless = is_head || (100..200).contains(&status) || status == 204 || status == 304;
+    let len = if bodyless {
+        0
+    } else {
+        headers
+            .iter()
+            .find(|(n, _)| n == b"content-length")
+            .and_then(|(_, v)| std::str::from_utf8(v).ok())
+            .and_then(|v| v.parse::<usize>().ok())
+            .ok_or("no content-length")?
+    };
+    while buf.len() < head_end + len {
+        more(stream, &mut buf).await?;
+    }
+    // after the answer to HEAD nothing may follow: give stray body bytes 150 ms to show up
+    if is_head {
+        let mut tmp = [0u8; 4096];
+        if let Ok(Ok(n)) = tokio::time::timeout(Duration::from_millis(150), stream.read(&mut tmp)).await {
+            buf.extend_from_slice(&tmp[..n]);
+        }
+        return Ok(Answer { status, headers, body: buf[head_end..].to_vec() });
+    }
+    Ok(Answer { status, headers, body: buf[head_end..head_end + len].to_vec() })
+}
+
+async fn open(hosts: Arc<HostCollection>, peer: SocketAddr) -> std::io::Result<tokio::net::TcpStream> {
+    // an address of 127/8 of this process' own and port 0 (see c05wire.rs)
+    static N: std::sync::atomic::AtomicU32 = std::sync::atomic::AtomicU32::new(0);
+    let n = N.fetch_add(1, std::sync::atomic::Ordering::Relaxed);
+    let pid = std::process::id();
+    let ip = std::net::Ipv4Addr::new(127, (1 + pid % 250) as u8, ((pid / 250 + n / 250) % 256) as u8, (1 + n % 250) as u8);
+    let listener = match tokio::net::TcpListener::bind((ip, 0)).await {
+        Ok(l) => l,
+        Err(_) => tokio::net::TcpListener::bind("127.0.0.1:0").await?,
+    };
+    let addr = listener.local_addr()?;
+    let client = tokio::net::TcpStream::connect(addr).await?;
+    let (server_end, _) = listener.accept().await?;
+    let desc = Arc::new(PortDescriptor::unsecure(8080, hosts));
+    tokio::spawn(async move {
+        // the peer address is what the accept loop hands over: here the address the scenario chose
+        let _ = kvarn::handle_connection(kvarn::Incoming::Tcp(server_end), peer, desc, || true).await;
+    });
+    Ok(client)
+}
+
+fn trouble(why: &str) -> X {
+    X::L(vec![X::N(93), X::b(why)])
+}
+
+enum WireOut {
+    Reply(Answer),
+    Other,
+}
+
+async fn wire_ops(b: &pipe::Built, ops: &[X]) -> Result<Vec<WireOut>, X> {
+    let mut out = Vec::new();
+    for (i, op) in ops.iter().enumerate() {
+        let l = op.as_l().ok_or_else(X::bad)?;
+        match l.first().and_then(X::as_n).ok_or_else(X::bad)? {
+            0 => {
+                if l.len() < 5 {
+                    return Err(X::bad());
+                }
+                let peer = address(&l[1], 4000 + (i % 20000) as u16).ok_or_else(|| X::L(vec![X::N(96)]))?;
+                let method = l[2].as_b().ok_or_else(X::bad)?;
+                let target = l[3].as_b().ok_or_else(X::bad)?;
+                let mut head = Vec::new();
+                head.extend_from_slice(method);
+                head.push(b' ');
+                head.extend_from_slice(target);
+                head.extend_from_slice(b" HTTP/1.1\r\nhost: ");
+                head.extend_from_slice(b.host_name.as_bytes());
+                head.extend_from_slice(b"\r\n");
+                for h in l[4].as_l().ok_or_else(X::bad)? {
+                    let (n, v) = match h.as_l() {
+                        Some([X::B(n), X::B(v)]) => (n, v),
+                        _ => return Err(X::bad()),
+                    };
+                    if n.is_empty() || v.iter().any(|c| *c == b'\r' || *c == b'\n' || *c == 0) {
+                        return Err(X::L(vec![X::N(96)]));
+                    }
+                    head.extend_from_slice(n);
+                    head.extend_from_slice(b": ");
+                    head.extend_from_slice(v);
+                    head.extend_from_slice(b"\r\n");
+                }
+                head.extend_from_slice(b"\r\n");
+                let mut stream = None;
+                let mut why = String::new();
+                for attempt in 0..4u64 {
+                    match tokio::time::timeout(WAIT, open(Arc::clone(&b.hosts), peer)).await {
+                        Ok(Ok(s)) => {
+                            stream = Some(s);
+                            break;
+                        }
+                        Ok(Err(e)) => why = format!("loopback connection could not be set up: {e}"),
+                        Err(_) => why = "loopback connection could not be set up: time-out".into(),
+                    }
+                    tokio::time::sleep(Duration::from_millis(50 << attempt)).await;
+                }
+                let mut stream = match stream {
+                    Some(s) => s,
+                    None => return Err(trouble(&why)),
+                };
+                let _ = stream.set_nodelay(true);
+                if stream.write_all(&head).await.is_err() {
+                    return Err(trouble("write error"));
+                }
+                match read_answer(&mut stream, method == b"HEAD").await {
+                    Ok(a) => out.push(WireOut::Reply(a)),
+                    Err(why) => return Err(trouble(why)),
+                }
+            }
+            1 => {
+                let uri = Uri::try_from(l.get(1).and_then(X::as_b).ok_or_else(X::bad)?).map_err(|_| X::bad())?;
+                let _ = b.hosts.clear_page(&b.host_name, &uri);
+                out.push(WireOut::Other);
+            }
+            2 => {
+                b.hosts.clear_response_caches(None).await;
+                out.push(WireOut::Other);
+            }
+            3 => {
+                tokio::time::sleep(Duration::from_millis(l.get(1).and_then(X::as_n).ok_or_else(X::bad)? as u64)).await;
+                out.push(WireOut::Other);
+            }
+            _ => return Err(X::bad()),
+        }
+    }
+    Ok(out)
+}
+
+/// names of the files whose marker `SECRET:<name>:` occurs in `b`
+fn markers(b: &[u8]) -> Vec<Vec<u8>> {
+    let mut out = Vec::new();
+    let pat = b"SECRET:";
+    let mut i = 0;
+    while i + pat.len() <= b.len() {
+        if &b[i..i + pat.len()] == pat {
+            let rest = &b[i + pat.len()..];
+            if let Some(e) = rest.iter().position(|c| *c == b':' || *c == b';') {
+                if rest[e] == b':' {
+                    out.push(rest[..e].to_vec());
+                }
+            }
+            i += pat.len();
+        } else {
+            i += 1;
+        }
+    }
+    out
+}
+
+fn comparable_headers(a: &Answer) -> Vec<(Vec<u8>, Vec<u8>)> {
+    let mut h: Vec<(Vec<u8>, Vec<u8>)> = a
+        .headers
+        .iter()
+        .filter(|(n, _)| n != b"date")
+        .map(|(n, v)| if n == b"last-modified" { (n.clone(), Vec::new()) } else { (n.clone(), v.clone()) })
+        .collect();
+    h.sort();
+    h
+}
+
+fn show_headers(h: &[(Vec<u8>, Vec<u8>)]) -> String {
+    h.iter().map(|(n, v)| format!("{}: {}", String::from_utf8_lossy(n), String::from_utf8_lossy(v))).collect::<Vec<_>>().join(" | ")
+}
+
+fn judge(ops: &[X], outs: &[WireOut]) -> Vec<X> {
+    let mut bad = Vec::new();
+    let mut say = |i: usize, what: String| bad.push(X::L(vec![X::n(i), X::b(what)]));
+    for (i, (op, o)) in ops.iter().zip(outs).enumerate() {
+        let (l, a) = match (op.as_l(), o) {
+            (Some(l), WireOut::Reply(a)) => (l, a),
+            _ => continue,
+        };
+        let allow = l.get(5).and_then(X::as_b).unwrap_or(b"");
+        let twin = l.get(6).and_then(X::as_n).unwrap_or(0) as usize;
+        let enc = a.headers.iter().find(|(n, _)| n == b"content-encoding").map(|(_, v)| v.clone());
+        let mut found = markers(&a.body);
+        if !a.body.is_empty() {
+            let (decoded, _) = pipe::decode_body(enc.as_deref(), &a.body);
+            found.extend(markers(&decoded));
+        }
+        for m in found {
+            if m != allow {
+                say(i, format!(
+                    "the answer (status {}) carries the content of the guarded file {:?} (allowed here: {:?})",
+                    a.status, String::from_utf8_lossy(&m), String::from_utf8_lossy(allow)
+                ));
+                break;
+            }
+        }
+        if l.get(2).and_then(X::as_b) == Some(b"HEAD") && !a.body.is_empty() {
+            say(i, format!("{} body bytes follow the answer to HEAD", a.body.len()));
+        }
+        if twin > 0 {
+            if let Some(WireOut::Reply(t)) = outs.get(twin - 1) {
+                if a.status != t.status {
+                    say(i, format!("status {} differs from the {} of the answer for a path that does not exist (op {})", a.status, t.status, twin - 1));
+                } else if a.body != t.body {
+                    say(i, format!("the body ({} bytes) differs from the body ({} bytes) of the answer for a path that does not exist (op {})", a.body.len(), t.body.len(), twin - 1));
+                } else if comparable_headers(a) != comparable_headers(t) {
+                    say(i, format!(
+                        "the headers [{}] differ from the headers [{}] of the answer for a path that does not exist (op {})",
+                        show_headers(&comparable_headers(a)), show_headers(&comparable_headers(t)), twin - 1
+                    ));
+                }
+            }
+        }
+    }
+    bad
+}
+
+fn wire(x: &X, verdict: bool) -> X {
+    clean_stale_dirs();
+    let l = match x.as_l() {
+        Some(l) if l.len() == 2 => l,
+        _ => return X::bad(),
+    };
+    let c = customize();
+    let built = match pipe::build_host(&l[0], Some(&*c)) {
+        Some(b) => b,
+        None => return X::bad(),
+    };
+    let ops = match l[1].as_l() {
+        Some(o) => o,
+        None => return X::bad(),
+    };
+    let rt = tokio::runtime::Builder::new_multi_thread().worker_threads(2).enable_all().build().unwrap();
+    let res = rt.block_on(wire_ops(&built, ops));
+    rt.shutdown_timeout(Duration::from_millis(200));
+    if let Some(d) = &built.dir {
+        let _ = std::fs::remove_dir_all(d);
+    }
+    match res {
+        Err(e) => e,
+        Ok(outs) if verdict => X::L(judge(ops, &outs)),
+        Ok(outs) => X::L(
+            outs.iter()
+                .map(|o| match o {
+                    WireOut::Reply(a) => X::L(vec![
+                        X::n(a.status),
+                        X::L(comparable_headers(a).iter().map(|(n, v)| X::L(vec![X::b(n), X::b(v)])).collect()),
+                        X::b(&a.body),
+                    ]),
+                    WireOut::Other => X::L(vec![]),
+                })
+                .collect(),
+        ),
+    }
+}
+
+// ------------------------------------------------------------------------------------------------
+// HTTP/2 push (kvarn_extensions::push, mounted by mount_all): a page that links guarded files, fetched over TLS + h2;
+// what the server PUSHES is judged like an answer.
+//   op     = (L (N 0) addr target (L (B name) ...) min_pushes): GET target from addr over a fresh h2 connection; the answer and
+//            every pushed response may carry the SECRET markers of the named files only; fewer than min_pushes pushed responses
+//            = the push path was not exercised = harness trouble
+//   result = (L violation ...) as guards.wire
+// ------------------------------------------------------------------------------------------------
+struct Tls {
+    key: Arc<rustls::sign::CertifiedKey>,
+    client_h2: Arc<rustls::ClientConfig>,
+}
+fn tls() -> &'static Tls {
+    static TLS: std::sync::OnceLock<Tls> = std::sync::OnceLock::new();
+    TLS.get_or_init(|| {
+        use rustls::pki_types::PrivateKeyDer;
+        let provider = Arc::new(rustls::crypto::ring::default_provider());
+        let ss = rcgen::generate_simple_self_signed(vec!["localhost".to_string()]).expect("self-signed certificate");
+        let cert = ss.cert.der().clone();
+        let pk = PrivateKeyDer::Pkcs8(ss.key_pair.serialized_der().to_vec().into());
+        let pk = rustls::crypto::ring::sign::any_supported_type(&pk).expect("key type");
+        let key = Arc::new(rustls::sign::CertifiedKey::new(vec![cert.clone()], pk));
+        let mut roots = rustls::RootCertStore::empty();
+        roots.add(cert).expect("root");
+        let mut c = rustls::ClientConfig::builder_with_provider(provider)
+            .with_safe_default_protocol_versions()
+            .expect("versions")
+            .with_root_certificates(roots)
+            .with_no_client_auth();
+        c.alpn_protocols = vec![b"h2".to_vec()];
+        Tls { key, client_h2: Arc::new(c) }
+    })
+}
+
+async fn h2_fetch(hosts: Arc<HostCollection>, peer: SocketAddr, target: &[u8]) -> Result<Vec<(String, u16, Vec<u8>)>, String> {
+    let listener = tokio::net::TcpListener::bind("127.0.0.1:0").await.map_err(|e| format!("bind: {e}"))?;
+    let addr = listener.local_addr().map_err(|e| format!("addr: {e}"))?;
+    let client = tokio::net::TcpStream::connect(addr).await.map_err(|e| format!("connect: {e}"))?;
+    let (server_end, _) = listener.accept().await.map_err(|e| format!("accept: {e}"))?;
+    let desc = Arc::new(PortDescriptor::new(8443, hosts));
+    tokio::spawn(async move {
+        let _ = kvarn::handle_connection(kvarn::Incoming::Tcp(server_end), peer, desc, || true).await;
+    });
+    let _ = client.set_nodelay(true);
+    let name = rustls::pki_types::ServerName::try_from("localhost").unwrap();
+    let s = tokio::time::timeout(WAIT, tokio_rustls::TlsConnector::from(tls().client_h2.clone()).connect(name, client))
+        .await
+        .map_err(|_| "time-out: TLS handshake".to_string())?
+        .map_err(|e| format!("TLS handshake: {e}"))?;
+    let (send, conn) = tokio::time::timeout(WAIT, h2::client::Builder::new().enable_push(true).handshake::<_, Bytes>(s))
+        .await
+        .map_err(|_| "time-out: h2 handshake".to_string())?
+        .map_err(|e| format!("h2 handshake: {e}"))?;
+    tokio::spawn(async move {
+        let _ = conn.await;
+    });
+    let mut uri = b"https://localhost:8443".to_vec();
+    uri.extend_from_slice(target);
+    let req = Request::builder().method(Method::GET).uri(Uri::try_from(&uri[..]).map_err(|e| e.to_string())?).body(()).map_err(|e| e.to_string())?;
+    let mut send = tokio::time::timeout(WAIT, send.ready()).await.map_err(|_| "time-out: h2 ready".to_string())?.map_err(|e| format!("h2 ready: {e}"))?;
+    let (mut resp, _) = send.send_request(req, true).map_err(|e| format!("h2 send_request: {e}"))?;
+    let mut pushes = resp.push_promises();
+    async fn body_of(mut body: h2::RecvStream) -> Result<Vec<u8>, String> {
+        let mut data = Vec::new();
+        loop {
+            match tokio::time::timeout(WAIT, body.data()).await {
+                Err(_) => return Err("time-out: h2 body".into()),
+                Ok(None) => return Ok(data),
+                Ok(Some(Err(e))) => return Err(format!("h2 body: {e}")),
+                Ok(Some(Ok(chunk))) => {
+                    let _ = body.flow_control().release_capacity(chunk.len());
+                    data.extend_from_slice(&chunk);
+                }
+            }
+        }
+    }
+    let mut out = Vec::new();
+    let main = tokio::time::timeout(WAIT, &mut resp).await.map_err(|_| "time-out: h2 response".to_string())?.map_err(|e| format!("h2 response: {e}"))?;
+    let (parts, body) = main.into_parts();
+    out.push((String::from_utf8_lossy(target).into_owned(), parts.status.as_u16(), body_of(body).await?));
+    // the pushed responses: promises arrive while the request's stream is open; none for 1.5 s = no more
+    loop {
+        match tokio::time::timeout(Duration::from_millis(1500), pushes.push_promise()).await {
+            Err(_) | Ok(None) => break,
+            Ok(Some(Err(e))) => return Err(format!("h2 push promise: {e}")),
+            Ok(Some(Ok(pp))) => {
+                let (preq, presp) = pp.into_parts();
+                let r = tokio::time::timeout(WAIT, presp).await.map_err(|_| "time-out: pushed response".to_string())?.map_err(|e| format!("pushed response: {e}"))?;
+                let (parts, body) = r.into_parts();
+                out.push((preq.uri().path().to_string(), parts.status.as_u16(), body_of(body).await?));
+            }
+        }
+    }
+    Ok(out)
+}
+
+fn push(x: &X) -> X {
+    clean_stale_dirs();
+    let l = match x.as_l() {
+        Some(l) if l.len() == 2 => l,
+        _ => return X::bad(),
+    };
+    let c: Box<pipe::Customize> = Box::new(|kv, host, shared| {
+        (customize())(kv, host, shared);
+        *host.certificate.write().unwrap() = Some(tls().key.clone());
+    });
+    let built = match pipe::build_host(&l[0], Some(&*c)) {
+        Some(b) => b,
+        None => return X::bad(),
+    };
+    let ops = match l[1].as_l() {
+        Some(o) => o,
+        None => return X::bad(),
+    };
+    let rt = tokio::runtime::Builder::new_multi_thread().worker_threads(2).enable_all().build().unwrap();
+    let res: Result<Vec<X>, X> = rt.block_on(async {
+        let mut bad = Vec::new();
+        for (i, op) in ops.iter().enumerate() {
+            let l = op.as_l().ok_or_else(X::bad)?;
+            if l.len() != 5 || l[0].as_n() != Some(0) {
+                return Err(X::bad());
+            }
+            let peer = address(&l[1], 5000 + (i % 20000) as u16).ok_or_else(|| X::L(vec![X::N(96)]))?;
+            let target = l[2].as_b().ok_or_else(X::bad)?;
+            let allowed: Vec<&[u8]> = l[3].as_l().ok_or_else(X::bad)?.iter().filter_map(X::as_b).collect();
+            let min = l[4].as_n().ok_or_else(X::bad)? as usize;
+            let got = match h2_fetch(Arc::clone(&built.hosts), peer, target).await {
+                Ok(g) => g,
+                Err(why) => return Err(trouble(&why)),
+            };
+            if got.len() < 1 + min {
+                return Err(trouble(&format!("only {} pushed responses (at least {} expected): the push path was not exercised", got.len() - 1, min)));
+            }
+            for (k, (path, status, body)) in got.iter().enumerate() {
+                for m in markers(body) {
+                    if !allowed.iter().any(|a| *a == &m[..]) {
+                        bad.push(X::L(vec![
+                            X::n(i),
+                            X::b(format!(
+                                "the {} for {:?} (status {}) to {} carries the content of the guarded file {:?}",
+                                if k == 0 { "answer" } else { "PUSHED response" }, path, status, peer.ip(), String::from_utf8_lossy(&m)
+                            )),
+                        ]));
+                    }
+                }
+            }
+        }
+        Ok(bad)
+    });
+    rt.shutdown_timeout(Duration::from_millis(200));
+    if let Some(d) = &built.dir {
+        let _ = std::fs::remove_dir_all(d);
+    }
+    match res {
+        Ok(v) => X::L(v),
+        Err(e) => e,
+    }
+}
 
 pub fn dispatch(comp: &str, x: &X) -> Option<X> {
     Some(match comp {
-        "guards.run" => c00pipe::run_scenario(
-            x,
-            Some(&|_kv, host, _shared| {
-                kvarn_extensions::mount_all(&mut host.extensions);
-            }),
-        ),
+        "guards.run" => run(x),
+        "guards.wire" => wire(x, true),
+        "guards.wire_obs" => wire(x, false),
+        "guards.push" => push(x),
         _ => return None,
     })
 }
